@@ -142,7 +142,7 @@ def main():
         for (n2, f2) in DEV[i + 1:]:
             r = dict(BASE); f1(r); f2(r); add(r, (n1, n2))
     n_struct = len(rows)
-    for _ in range(60000 if thorough else 6000):                        # random combinations, biased towards few deviations
+    for _ in range(250000 if thorough else 25000):                        # random combinations, biased towards few deviations
         r = dict(BASE)
         k = rng.choice([3, 3, 4, 4, 5, 6, 8])
         names = []
